@@ -125,6 +125,28 @@ func c08(r *Report) propMeta {
 	r.Rule("C08.R7", "E19 constructors of x/tunnel/types store their inputs unchanged")
 	r.CtorFaithful("ctor", faithfulCtors["tunnel"]...)
 
+	r.Rule("C08.R9", "tracked prices: merged by signal id, or never partial")
+	r.AnyOf("tracked-prices-consistent", "LatestPrices.UpdatePrices merges the sent prices into the tracked ones by signal id in every case, OR every reset of the tracked prices also resets LastInterval to 0 (which forces a full packet first, so a partial tracked list never exists)", map[string]func(*Report){
+		"merge-by-id-always": func(s *Report) {
+			s.Count("single-exit", "x/tunnel/types.LatestPrices.UpdatePrices", []Effect{MapUpdEff()}, "all", 0, -1)
+			s.LoopVisitsAll("every-sent-price-merged", "x/tunnel/types.LatestPrices.UpdatePrices", "builtin.append", LoopOpts{})
+			s.CondCount("branches", "x/tunnel/types.LatestPrices.UpdatePrices", 3)
+		},
+		"reset-means-interval-zero": func(s *Report) {
+			for _, f := range []string{uK + "AddTunnel", uK + "UpdateSignalsAndInterval", "x/tunnel/keeper.InitGenesis"} {
+				s.ArgHas("reset-interval-zero", f, "types.NewLatestPrices", 2, 1, "^const:0")
+			}
+			s.Callers("resetters", "x/tunnel/types.NewLatestPrices", []string{uK + "AddTunnel", uK + "UpdateSignalsAndInterval", "x/tunnel/keeper.InitGenesis", "x/tunnel.InitGenesis"}, nil)
+		},
+	})
+
+	r.Rule("C08.R8", "app wiring: packets carry this block's prices")
+	r.OrderBefore("order", "orderEndBlockers", "feeds", "tunnel", "the tunnel end-blocker compares and sends the prices feeds computed in the same block")
+	r.OrderBefore("order", "orderEndBlockers", "bandtss", "tunnel", "a group transition executed in this block decides which group signs this block's packets")
+
+	// the active flag / active-id index pair (activation, deactivation, withdraw-below-minimum) is decided by C17's rules
+	r.Include("C17", "C17.R3", "C17.R4", "C17.R5")
+
 	return propMeta{
 		Decided: []string{
 			"R1 CreatePacket/DeductBasePacketFee/SetLatestPrices on the end-block path are under ProduceActiveTunnelPacket's CacheContext whose writeFn is gated by ProducePacket==nil; both routes sit under SendPacket's defer-recover that assigns the NAMED error result; latest prices are written only after CreatePacket and SendPacket succeeded",
@@ -134,6 +156,8 @@ func c08(r *Report) propMeta {
 			"R5 GetSigningFee and createSigningRequest compute FeePerSigner.MulInt(current group Threshold) from the same reads",
 			"R6 every KV-store Get/Has/Delete of x/tunnel uses a key builder of x/tunnel/types that some Set of the module also uses (a probe of an iteration prefix or of a sibling family is always-empty state)",
 			"R7 the literal constructors of x/tunnel/types (frozen list) store each parameter or a constant unchanged in the record they build: what a handler validated is what is stored",
+			"R8 in app.orderEndBlockers feeds and bandtss come before tunnel",
+			"R9 (disjunctive) either UpdatePrices merges by signal id on every path, or every place that empties the tracked prices also zeroes LastInterval; giving up one of the two alone keeps the property, giving up both does not (seed C08-7)",
 		},
 		Undecided: []string{"'exactly when due' over price trajectories", "deviation arithmetic values", "route-internal behaviour (bandtss/ibc) beyond the recover barrier"},
 		Assume:    []string{"CacheContext isolates writes until writeFn", "bank SendCoins* either moves the full amount or errors", "msg handlers are atomic"},
